@@ -26,7 +26,7 @@ func fieldStores(r *Run, typeQual, field string) map[*core.FuncInfo][]ast.Node {
 	}
 	for _, f := range r.W.AllFuncs(pkg) {
 		info := f.Info()
-		ast.Inspect(f.Body(), func(x ast.Node) bool {
+		core.InspectBody(f, func(x ast.Node) bool {
 			var lhs []ast.Expr
 			switch s := x.(type) {
 			case *ast.AssignStmt:
